@@ -329,6 +329,7 @@ def run_codec(ctx: C.Ctx) -> None:
         ctx.case(("dec", dec, data), True)
     run_calls(ctx, lines, impl, meta, fails)
     run_pred(ctx, lines, impl, meta, fails)
+    run_numtree(ctx, lines, impl, meta, fails)
     for f in fails.values():
         ctx.fail(f)
     if ctx.driver is None:
@@ -412,6 +413,125 @@ def run_calls(ctx: C.Ctx, lines: List[str], impl: List[str], meta: List[Any], fa
         ctx.case(("ra_calls-diamond", n), True)
 
 
+# ----------------------------------------------------------------------------- round 6c: NumberTree._parse
+
+def _nt_node(rng, n: int, depth: int):
+    from harness.props import c13_model as M
+    ents = []
+    if rng.random() < 0.6:
+        r = rng.random()
+        if r < 0.7:
+            nums = []
+            for _ in range(rng.randint(0, 3)):
+                nums.append(("int", rng.randint(-2, 9)) if rng.random() < 0.75 else M.gen_scalar(rng, n))
+                nums.append(M.gen_scalar(rng, n))
+            if rng.random() < 0.2:
+                nums.append(("int", 7))                     # odd tail: dropped by choplist
+            ents.append((b"Nums", ("arr", nums)))
+        elif r < 0.85:
+            ents.append((b"Nums", ("ref", rng.randint(0, n + 1))))
+        else:
+            ents.append((b"Nums", M.gen_scalar(rng, n)))
+    if rng.random() < 0.9:
+        r = rng.random()
+        if r < 0.55:
+            ents.append((b"Kids", ("arr", [_nt_child(rng, n, depth) for _ in range(rng.randint(1, 3))])))
+        elif r < 0.9:
+            ents.append((b"Kids", ("ref", rng.randint(0, n + 1))))      # indirect Kids array (or anything else)
+        else:
+            ents.append((b"Kids", M.gen_scalar(rng, n)))
+    if rng.random() < 0.3:
+        ents.append((b"Limits", ("arr", [("int", 0), ("int", 9)]) if rng.random() < 0.6 else M.gen_scalar(rng, n)))
+    return ("dict", ents)
+
+
+def _nt_child(rng, n: int, depth: int):
+    from harness.props import c13_model as M
+    r = rng.random()
+    if r < 0.6 or depth <= 0:
+        return ("ref", rng.randint(0, n + 1)) if r < 0.9 else M.gen_scalar(rng, n)
+    return _nt_node(rng, n, depth - 1)
+
+
+def gen_nt_graph(rng):
+    from harness.props import c13_model as M
+    n = rng.randint(1, 7)
+    g: Dict[int, Any] = {}
+    for k in range(1, n + 1):
+        r = rng.random()
+        if r < 0.55:
+            g[k] = _nt_node(rng, n, 2)
+        elif r < 0.8:
+            g[k] = ("arr", [_nt_child(rng, n, 2) for _ in range(rng.randint(0, 3))])   # a Kids array object
+        elif r < 0.9:
+            g[k] = ("ref", rng.randint(0, n + 1))
+        else:
+            g[k] = M.gen_value(rng, n, 2)
+    x = ("ref", rng.randint(1, n)) if rng.random() < 0.6 else _nt_node(rng, n, 3)
+    return g, x
+
+
+def check_numtree(ctx: C.Ctx, g: Dict[int, Any], x, strict: bool, fails: Dict[str, Any]):
+    """data_structures.NumberTree(x)._parse(visited) on the graph: items in order and the visited set in insertion
+    order, against Model/LenientTree.numTree; must return or raise a family error."""
+    from pdfminer.data_structures import NumberTree
+    from harness.props import c13_model as M
+    doc = M.StubDoc()
+    for n, v in g.items():
+        doc.objs[n] = M.to_py(v, doc)
+    px = M.to_py(x, doc)
+    order: List[int] = []
+
+    class OSet(set):
+        def add(self, e):  # noqa: ANN001
+            order.append(e)
+            set.add(self, e)
+    res = M.guarded(lambda: NumberTree(px)._parse(OSet()), strict=strict)
+    inp = {"op": "numtree", "strict": strict, "graph": {str(n): M.tok(v) for n, v in g.items()}, "x": M.tok(x)}
+    if res[0] == "V":
+        out = "V %d" % len(res[1]) + "".join(" | %s %s" % (M.from_py(k), M.from_py(v)) for k, v in res[1]) + \
+            " ; " + " ".join(str(e) for e in order)
+        if len(set(order)) != len(order):
+            what = "NumberTree._parse records an object in its visited set twice"
+            fails.setdefault(what, C.Failure(what, inp, "each indirect node / Kids array at most once", out,
+                                             {"cls": "budget", "exc": "", "where": "model:numtree", "kind": "graph"}))
+    elif res[0] == "HANG":
+        out = "HANG"
+    else:
+        out = "E " + res[1]
+    if res[0] == "HANG" or (res[0] == "E" and not res[2]):
+        what = ("NumberTree._parse does not return (cyclic number tree)" if res[0] == "HANG"
+                else f"NumberTree._parse leaks {res[1]} on an ill-typed / cyclic number tree")
+        fails.setdefault(what, C.Failure(what, inp, "the items or an error of the PSException family", out,
+                                         {"cls": "hang" if res[0] == "HANG" else "internal", "exc": "" if res[0] == "HANG" else res[1],
+                                          "where": "model:numtree", "kind": "graph"}))
+    ctx.branch("numtree:%s:visited=%s" % ("ok" if res[0] == "V" else out.replace("E ", ""), min(len(order), 4)))
+    return "numtree %d %s" % (int(strict), M.tok(x)), out, inp
+
+
+def run_numtree(ctx: C.Ctx, lines: List[str], impl: List[str], meta: List[Any], fails: Dict[str, Any]) -> None:
+    from harness.props import c13_model as M
+    rng = ctx.rng
+    cases = [gen_nt_graph(rng) for _ in range(ctx.n(150, 4000))]
+    # the defect of fix 8f4f6ca (a direct node naming the Kids array it sits in), a Kids cycle, a shared leaf, a deep chain
+    d = lambda *e: ("dict", list(e))  # noqa: E731
+    cases += [
+        ({5: ("arr", [d((b"Kids", ("ref", 5)))])}, d((b"Kids", ("ref", 5)))),
+        ({1: d((b"Kids", ("arr", [("ref", 2)]))), 2: d((b"Kids", ("arr", [("ref", 1), ("ref", 2)])), (b"Nums", ("arr", [("int", 1), ("int", 2)])))}, ("ref", 1)),
+        ({1: d((b"Kids", ("arr", [("ref", 2), ("ref", 2), ("ref", 3)]))), 2: d((b"Nums", ("arr", [("int", 4), ("name", b"x")]))),
+          3: d((b"Kids", ("ref", 4))), 4: ("arr", [("ref", 2), d((b"Nums", ("arr", [("bool", True), ("int", 0)])))])}, ("ref", 1)),
+        ({k: d((b"Kids", ("arr", [("ref", k + 1)])), (b"Nums", ("arr", [("int", k), ("int", k)]))) for k in range(1, 9)}, ("ref", 1)),
+    ]
+    for g, x in cases:
+        lines.append(" ".join(["G", str(len(g))] + ["%d %s" % (n, M.tok(v)) for n, v in g.items()]))
+        impl.append("ok")
+        meta.append(("G", None))
+        for strict in ((False, True) if rng.random() < 0.3 else (False,)):
+            line, out, inp = check_numtree(ctx, g, x, strict, fails)
+            lines.append(line); impl.append(out); meta.append(("numtree", inp))
+            ctx.case(("numtree", tuple(sorted(inp["graph"].items())), inp["x"], strict), " ; " in out and not out.endswith("; "))
+
+
 def replay_codec(ctx: C.Ctx, inp: Dict[str, Any]) -> bool:
     """Replays a stored `dec` / `sdec` input; returns False when the input is not one of this module."""
     op = inp.get("op")
@@ -422,6 +542,10 @@ def replay_codec(ctx: C.Ctx, inp: Dict[str, Any]) -> bool:
         check_stream(ctx, [bytes.fromhex(n) for n in inp["names"]], bytes.fromhex(inp["data"]), fails)
     elif op == "pred":
         check_pred(ctx, inp["kind"], int(inp["colors"]), int(inp["columns"]), int(inp["bpc"]), bytes.fromhex(inp["data"]), fails)
+    elif op == "numtree":
+        from harness.props import c13_model as M
+        g = {int(n): M.untok(t.split(" "))[0] for n, t in inp["graph"].items()}
+        check_numtree(ctx, g, M.untok(inp["x"].split(" "))[0], bool(inp.get("strict")), fails)
     elif op == "ra_calls":
         from harness.props import c13_model as M
         g = {int(n): M.untok(t.split(" "))[0] for n, t in inp["graph"].items()}
